@@ -28,10 +28,19 @@ pub struct Case {
     pub op: String,
     pub scalars: Vec<(String, String)>,
     pub allow_undefined: bool,
+    /// the schema reaches nitrogql as an introspection result (JSON file, through the CLI) instead of SDL
+    pub json: bool,
+}
+
+/// (CLI binary, scratch directory) for the introspection route; unset = that route is skipped
+pub static CLI_ROUTE: std::sync::OnceLock<(String, String)> = std::sync::OnceLock::new();
+thread_local! {
+    pub static JSON_ROUTE_LOADED: std::cell::Cell<u64> = const { std::cell::Cell::new(0) };
+    pub static JSON_ROUTE_DEPRECATED_SELECTED: std::cell::Cell<u64> = const { std::cell::Cell::new(0) };
 }
 
 fn case_json(prop: &str, c: &Case) -> Value {
-    json!({"property":prop,"kind":"types","schema":c.schema,"op":c.op,"scalars":c.scalars.iter().map(|(a,b)| json!([a,b])).collect::<Vec<_>>(),"allow_undefined":c.allow_undefined})
+    json!({"property":prop,"kind":"types","schema":c.schema,"op":c.op,"scalars":c.scalars.iter().map(|(a,b)| json!([a,b])).collect::<Vec<_>>(),"allow_undefined":c.allow_undefined,"json":c.json})
 }
 
 fn case_from_json(v: &Value) -> Case {
@@ -40,6 +49,7 @@ fn case_from_json(v: &Value) -> Case {
         op: v["op"].as_str().unwrap_or("").to_string(),
         scalars: v["scalars"].as_array().map(|a| a.iter().map(|x| (x[0].as_str().unwrap_or("").to_string(), x[1].as_str().unwrap_or("").to_string())).collect()).unwrap_or_default(),
         allow_undefined: v["allow_undefined"].as_bool().unwrap_or(true),
+        json: v["json"].as_bool().unwrap_or(false),
     }
 }
 
@@ -58,6 +68,22 @@ pub fn gen_case(rng: &mut Rng, for_c09: bool) -> Option<Case> {
             let new = "Date";
             if ix0.kind(new).is_none() {
                 crate::props::c10::rename_type(&mut schema, v, new);
+            }
+        }
+    }
+    // one case in six takes the introspection route; there a third of the output fields are deprecated (a server lists
+    // them under includeDeprecated: true, and documents may still select them)
+    let json = rng.chance(1, 6);
+    if json {
+        for d in schema.defs.iter_mut() {
+            if let TsDef::Type(t) = d {
+                if matches!(t.kind, TKind::Object | TKind::Interface) {
+                    for f in t.fields.iter_mut() {
+                        if rng.chance(1, 3) && !f.dirs.iter().any(|d| d.name.s == "deprecated") {
+                            f.dirs.push(Dir::new("deprecated", vec![]));
+                        }
+                    }
+                }
             }
         }
     }
@@ -87,8 +113,11 @@ pub fn gen_case(rng: &mut Rng, for_c09: bool) -> Option<Case> {
     if rng.chance(1, 3) {
         schema = crate::gen_schema::split_extensions(&schema, rng);
     }
-    crate::gen_schema::scalars_via_directive(&mut schema, &mut scalars, SCALAR_TS, rng);
-    Some(Case { schema: render_ts(&schema, None, Feat::plain()), op: render_exec(&doc, None, Feat::plain()), scalars, allow_undefined: rng.chance(2, 3) })
+    if !json {
+        // (an introspection result does not carry directive applications)
+        crate::gen_schema::scalars_via_directive(&mut schema, &mut scalars, SCALAR_TS, rng);
+    }
+    Some(Case { schema: render_ts(&schema, None, Feat::plain()), op: render_exec(&doc, None, Feat::plain()), scalars, allow_undefined: rng.chance(2, 3), json })
 }
 
 pub struct Loaded {
@@ -115,6 +144,9 @@ pub fn load_case(prop: &str, c: &Case, out: &mut Vec<Violation>) -> Option<Loade
     cfg.scalars = c.scalars.clone();
     cfg.allow_undefined_as_optional_input = Some(c.allow_undefined);
     cfg.schema_module_specifier = Some("@/schema".into());
+    if c.json {
+        return load_case_json(prop, c, cfg, ix, doc, out);
+    }
     let config_text = cfg.render(&["./schema.graphql".to_string()], &["./op.graphql".to_string()]);
     let sf = vec![("/proj/schema.graphql".to_string(), c.schema.clone())];
     let of = vec![("/proj/op.graphql".to_string(), c.op.clone())];
@@ -136,6 +168,45 @@ pub fn load_case(prop: &str, c: &Case, out: &mut Vec<Violation>) -> Option<Loade
     let op_stmts = ts::parse_module(&o.ops[0].dts).ok()?;
     let sm = ScalarMap::new(&ix, &c.scalars);
     Some(Loaded { ix, doc, sm, l, op_stmts })
+}
+
+/// the introspection route: the merged schema is written as the JSON a server would answer (deprecated fields listed),
+/// the real CLI generates from it, and its declaration files are loaded like those of the library route
+fn load_case_json(prop: &str, c: &Case, cfg: GenConfig, ix: SchemaIx, doc: ExecDoc, out: &mut Vec<Violation>) -> Option<Loaded> {
+    use crate::cli;
+    use crate::introspect::{IntroStyle, introspect};
+    let (cli_bin, scratch) = CLI_ROUTE.get()?;
+    let replay = case_json(prop, c);
+    let h = crate::rng::hash_str(&c.schema) ^ crate::rng::hash_str(&c.op).rotate_left(17);
+    let mut jr = Rng::new(h);
+    let style = IntroStyle { full: jr.coin(), meta_types: jr.coin(), shuffle: jr.coin() };
+    let intro = introspect(&ix, None, style, &mut jr);
+    let text = if jr.coin() { serde_json::to_string_pretty(&intro).unwrap_or_default() } else { intro.to_string() };
+    let config_text = cfg.render(&["./schema.json".to_string()], &["./op.graphql".to_string()]);
+    let dir = cli::scratch_dir(scratch, "c01", h);
+    let files = vec![("schema.json".to_string(), text), ("op.graphql".to_string(), c.op.clone()), ("graphql.config.yaml".to_string(), config_text)];
+    let mut loaded = None;
+    if cli::write_project(&dir, &files).is_ok() {
+        let r = cli::run_cli(cli_bin, &dir, &["generate", "--output-format", "json"], std::time::Duration::from_secs(60));
+        if let Some(l) = r.panicked() {
+            out.push(Violation { sig: format!("{prop}|panic|{}|introspection-route", r.panic_site().unwrap_or_default()), detail: format!("nitrogql-cli printed a panic: {l}"), replay: replay.clone() });
+        } else if r.status == Some(0) {
+            if let (Ok(schema_dts), Ok(op_dts)) = (std::fs::read_to_string(dir.join("generated/schema.d.ts")), std::fs::read_to_string(dir.join("op.graphql.d.ts"))) {
+                match ts::load(&schema_dts, Some(&op_dts)) {
+                    Ok(l) => {
+                        if let Ok(op_stmts) = ts::parse_module(&op_dts) {
+                            let sm = ScalarMap::new(&ix, &c.scalars);
+                            JSON_ROUTE_LOADED.with(|k| k.set(k.get() + 1));
+                            loaded = Some(Loaded { ix, doc, sm, l, op_stmts });
+                        }
+                    }
+                    Err(e) => out.push(Violation { sig: format!("{prop}|declaration-file-does-not-parse|introspection-route"), detail: format!("{e} — {:?}", clip(&op_dts, 400)), replay: replay.clone() }),
+                }
+            }
+        }
+    }
+    cli::cleanup(&dir);
+    loaded
 }
 
 /// (result type, variables type) of the TypedDocumentNode constant named `name`
@@ -524,7 +595,7 @@ fn normalized_case(c: &Case, ix: &SchemaIx, doc: &ExecDoc) -> Option<Case> {
     if canon(&execdoc_node(&n)) == canon(&execdoc_node(doc)) {
         return None;
     }
-    Some(Case { schema: c.schema.clone(), op: render_exec(&n, None, Feat::plain()), scalars: c.scalars.clone(), allow_undefined: c.allow_undefined })
+    Some(Case { schema: c.schema.clone(), op: render_exec(&n, None, Feat::plain()), scalars: c.scalars.clone(), allow_undefined: c.allow_undefined, json: c.json })
 }
 
 pub struct TypeStats {
@@ -660,6 +731,7 @@ fn run_results(prop: &str, ctx: &Ctx, rep: &mut Report) {
         return;
     }
     crate::gen_syntax::set_allow_block(false);
+    let _ = CLI_ROUTE.set((ctx.cli.clone(), ctx.out.clone()));
     let n = ctx.budget(16_000, 240_000);
     let mut stats = TypeStats { responses: 0, inhabitants: 0, features: BTreeSet::new(), targets: 0 };
     let mut feature_counts: BTreeMap<&'static str, u64> = BTreeMap::new();
@@ -697,6 +769,7 @@ fn run_results(prop: &str, ctx: &Ctx, rep: &mut Report) {
         }
     }
     rep.add("operations_and_fragments_compared", stats.targets);
+    rep.add("documents_loaded_through_the_introspection_route(real CLI, JSON schema with deprecated fields)", JSON_ROUTE_LOADED.with(|k| k.get()));
     if prop == "C01" {
         rep.add("responses_evaluated", stats.responses);
     } else {
@@ -865,6 +938,7 @@ pub fn run_c09(ctx: &Ctx, rep: &mut Report) {
         return;
     }
     crate::gen_syntax::set_allow_block(false);
+    let _ = CLI_ROUTE.set((ctx.cli.clone(), ctx.out.clone()));
     let n = ctx.budget(24_000, 300_000);
     let mut stats = (0u64, 0u64);
     for case in 0..n {
@@ -893,7 +967,8 @@ pub fn run_c09(ctx: &Ctx, rep: &mut Report) {
     rep.add("assignments_evaluated", stats.1);
 }
 
-pub fn replay(case: &Value) -> Vec<Violation> {
+pub fn replay(case: &Value, ctx: &Ctx) -> Vec<Violation> {
+    let _ = CLI_ROUTE.set((ctx.cli.clone(), ctx.out.clone()));
     let c = case_from_json(case);
     let mut rng = Rng::new(1);
     match case["property"].as_str() {
